@@ -1,4 +1,12 @@
 package main
 
-// further constants are appended here as properties are added
-func genConstsMore() {}
+// Further regenerated constants: each property file appends a printer in its init(), e.g.
+//   func init() { constGens = append(constGens, func() { fmt.Printf("Definition c_fainN := %d.\n", ...) }) }
+// They are printed into coq/Gen/Consts.v in registration (file name) order.
+var constGens []func()
+
+func genConstsMore() {
+	for _, g := range constGens {
+		g()
+	}
+}
